@@ -16,6 +16,11 @@ from .common import (GEOM, DIE, PARSE_DIE, YWRITE, sigma_xy, stmt_calls, exit_fa
 LISTS = {"blockages": "_blockages", "fixed_regions": "_fixed", "ground_regions": "_ground_regions",
          "specialized_regions": "_specialized_regions"}
 PRIV = set(LISTS.values())
+from framelint.canon import canon_function as _canon_function_expanded
+
+def canon_function(fi, model=None, opts=None):   # rules of this file match shapes: look through every local
+    return _canon_function_expanded(fi, model, opts, expand=True)
+
 
 
 def _list_atoms(s: S) -> set[str]:
